@@ -103,6 +103,21 @@ pub fn name_nets(k: u16) -> Result<Vec<Arc<Bound>>, String> {
     Ok(out)
 }
 
+/// Networks built PROGRAMMATICALLY with variables declared in a non-lexicographic order
+/// (`RegulatoryGraph::new` keeps the given order; every parser sorts the names).
+pub fn decl_nets(k: u16) -> Result<Vec<Arc<Bound>>, String> {
+    let specs: [(&str, &str, &[&str]); 3] = [
+        ("dcl2", "b -> a; a -| b; a -?? a", &["b", "a"]),
+        ("dcl3", "c -?? a; a -> b; b -| c; $b: a", &["c", "a", "b"]),
+        ("dclp2", "b -?? a; a -?? b; $a: g(b); $b: f(a)", &["b", "a"]),
+    ];
+    let mut out = vec![];
+    for (name, text, order) in specs {
+        out.push(Arc::new(bind(name, &crate::nets::spec_ordered(text, Some(order)), k)?));
+    }
+    Ok(out)
+}
+
 /// Networks that are unusual as DATA: constants only, a constant feeding a toggle, four variables,
 /// an implicit function of three regulators (256 valuations), a variable that regulates nothing.
 pub fn edge_nets(k: u16) -> Result<Vec<Arc<Bound>>, String> {
